@@ -22,6 +22,7 @@ CACHE = os.path.join(ROOT, '.cache')
 HARNESSES = [
     ('k_signed_i32', 'messages/parsers.rs', ['C10', 'C01'], 'complete', 'all widths 1..=31 x bit offsets 0..7 x all contents (5 bytes suffice)', 'quick', 600),
     ('k_signed_i32_short', 'messages/parsers.rs', ['C10', 'C01', 'C14'], 'complete', 'all widths x offsets x contents on a 2-byte buffer: Err iff the bits are not there', 'quick', 600),
+    ('k_message_type', 'messages/parsers.rs', ['C09', 'C19', 'C01'], 'complete', 'buffers of 0..=2 bytes, all contents (only the first byte is read)', 'quick', 300),
     ('k_u8_to_bool', 'messages/parsers.rs', ['C04'], 'complete', 'both values of a 1-bit field', 'quick', 300),
     ('k_rot_parse', 'messages/navigation.rs', ['C11', 'C01'], 'complete', 'all 256 codes', 'quick', 300),
     ('k_dte_from', 'messages/types.rs', ['C12', 'C01'], 'complete', 'both values of a 1-bit field', 'quick', 300),
@@ -29,6 +30,15 @@ HARNESSES = [
     ('k_talker_from', 'sentence.rs', ['C07', 'C01'], 'complete', 'all byte strings of length 0..=3 (the parser passes length 2)', 'quick', 300),
     ('k_rtype_from', 'sentence.rs', ['C07', 'C01'], 'complete', 'all byte strings of length 0..=4 (the parser passes length 3)', 'quick', 300),
     ('k_parser_default', 'sentence.rs', ['C05', 'C06', 'C17'], 'complete', 'no input', 'quick', 300),
+    # ---- validation of assumed nom contracts against the real nom code (bounded domains; reported separately)
+    ('k_nom_take_u8', 'lib.rs', ['SHIM'], 'shimval', 'bits::complete::take -> u8: count <= 8, offset < 8, buffers 0..=6 bytes, all contents', 'quick', 900),
+    ('k_nom_take_u16', 'lib.rs', ['SHIM'], 'shimval', 'bits::complete::take -> u16: count <= 16, offset < 8, buffers 0..=6 bytes', 'quick', 900),
+    ('k_nom_take_u32', 'lib.rs', ['SHIM'], 'shimval', 'bits::complete::take -> u32: count <= 32, offset < 8, buffers 0..=6 bytes', 'quick', 900),
+    ('k_nom_take_i16', 'lib.rs', ['SHIM'], 'shimval', 'bits::complete::take -> i16: count <= 15', 'quick', 900),
+    ('k_nom_take_i32', 'lib.rs', ['SHIM'], 'shimval', 'bits::complete::take -> i32: count <= 31', 'quick', 900),
+    ('k_nom_take_u8_wide', 'lib.rs', ['SHIM'], 'shimval', 'take -> u8 with 8 < count and count + offset < 16: no panic, position', 'quick', 600),
+    ('k_nom_many_1_4', 'lib.rs', ['SHIM'], 'shimval', 'multi::many_m_n(1, 4, one-byte parser) on 0..=6 bytes', 'quick', 900),
+    ('k_nom_tag_take_anychar', 'lib.rs', ['SHIM'], 'shimval', 'bytes::complete::{tag, take}, character::complete::anychar on 0..=4 bytes', 'quick', 600),
     # ---- bounded stand-ins (never counted as proved)
     ('k_checksum_0', 'sentence.rs', ['C02', 'C01'], 'bounded', 'check_checksum: 0 bytes, all expected values', 'quick', 300),
     ('k_checksum_2', 'sentence.rs', ['C02', 'C01'], 'bounded', 'check_checksum: 2 bytes, all contents', 'quick', 300),
@@ -45,6 +55,10 @@ HARNESSES = [
 for _n, _unw in [(0, 'quick'), (1, 'quick'), (2, 'quick'), (3, 'quick'), (4, 'quick'), (5, 'quick'), (6, 'quick'), (7, 'quick'), (8, 'quick'), (9, 'quick'), (12, 'quick'), (16, 'quick')]:
     HARNESSES.append(('k_unarmor_%d' % _n, 'messages/mod.rs', ['C03', 'C01'], 'bounded',
                       'unarmor: %d characters, all contents, fill 0..=5, every output bit against the reference packing' % _n, _unw, 900))
+
+
+# properties whose checks re-validate the assumed nom contracts (the others rely on the same shim and say so)
+SHIM_PROPS = ('C01', 'C04')
 
 
 def log_null(_):
@@ -178,8 +192,8 @@ def run_harnesses(names, work, log, extra_args=(), timeout=1200, jobs=8):
 
 
 def run_for_property(prop, tier, work, log):
-    sel = [h for h in HARNESSES if prop in h[2] and (h[5] == 'quick' or tier == 'thorough')]
-    out = dict(obligations=[], discharged=[], failures=[], undecided=[], bounded=[], backend=None)
+    sel = [h for h in HARNESSES if (prop in h[2] or (h[3] == 'shimval' and prop in SHIM_PROPS)) and (h[5] == 'quick' or tier == 'thorough')]
+    out = dict(obligations=[], discharged=[], failures=[], undecided=[], bounded=[], backend=None, shimval=[])
     if not sel:
         return out
     res = run_harnesses([h[0] for h in sel], work, log, timeout=max(h[6] for h in sel) + 600)
@@ -188,6 +202,11 @@ def run_for_property(prop, tier, work, log):
         r = res.get(name, dict(status='unknown', output=''))
         total += r.get('time_s') or 0
         ob = ('kani:%s::%s' % (f, name), '%s — %s' % (kind, domain))
+        if kind == 'shimval':
+            out['shimval'].append(dict(harness=name, domain=domain, status=r['status']))
+            if r['status'] != 'success':
+                out['undecided'].append('assumed nom contract not validated: %s (%s)' % (name, r['status']))
+            continue
         if kind == 'bounded':
             # never counted as proved; a failure is still a refutation with a trace
             entry = dict(obligation=ob[0], bound=domain, engine='kani/cbmc', status=r['status'])
